@@ -39,7 +39,73 @@ def _site(a, b, i, name):
     return key.replace(name, "<name>")
 
 
+@st.composite
+def chain_cases(draw, max_n):
+    """a Hexital whose one member reads the other's output, registered in either order: whatever a closed candle
+    shows for the dependant (a value, or nothing because its source is calculated after it) must stay"""
+    from hxv.props.c01 import chain_cases as base
+
+    case = draw(base(max_n=max_n))
+    case.pop("lifespan", None)
+    case["down_first"] = draw(st.booleans())
+    return case
+
+
+def _chain_enum():
+    """every (source, dependant) pair of the chain pool with small parameters, in both registration orders, fed one
+    candle at a time from empty and in a few other schedules, on the base timeframe and on T5"""
+    from hxv.props.c01 import DOWN, UP
+
+    streams = twin.fixed_streams(8)
+    for u in UP:
+        for d_ in DOWN:
+            up, down = twin.small_cfg(u), twin.small_cfg(d_)
+            up["kw"].pop("input_value", None)
+            up["kw"]["fullname_override"] = "UP"
+            down["kw"]["input_value"] = "UP"
+            down["kw"]["fullname_override"] = "DOWN"
+            for si, rows in enumerate(streams[:3]):
+                for down_first in (True, False):
+                    for pre, chunks in ((0, [1] * 8), (1, [1, 2, 1, 3]), (0, [3, 1, 1, 1, 2])):
+                        for tf in (None, "T5") if si == 2 else (None,):
+                            yield {"chain": [up, down], "stream": rows, "preload": pre, "chunks": chunks, "tf": tf, "fill": False, "down_first": down_first}
+
+
+def _run_chain(case) -> Result:
+    from hexital import Hexital
+
+    from hxv.lib import mgr_kwargs
+
+    labels = ["chain", "dependant_registered_first" if case.get("down_first") else "source_registered_first"]
+    up, down = case["chain"]
+    order = [down, up] if case.get("down_first") else [up, down]
+    pre, chunks = twin.schedule(case)
+    tf = case.get("tf")
+    snaps = []
+    try:
+        hx = Hexital("c02", mk_candles(pre), [build_indicator(c) for c in order], **mgr_kwargs(case))
+        hx.calculate()
+        for ch in chunks:
+            hx.append(mk_candles(ch))
+            snaps.append(snap(hx.candles()))
+    except Exception:
+        return Result([], False, labels + ["raises"])  # totality is C09, Hexital construction C08
+    compared = False
+    for t in range(len(snaps) - 1):
+        a = closed(snaps[t], tf)
+        b = snaps[t + 1][: len(a)]
+        if any(r[6].get("DOWN") is not None for r in a):
+            compared = True
+        d = first_diff(a, b)
+        if d is not None:
+            i, text = d
+            return Result([Violation("closed-candle-changed-by-later-append", diff_key(a[i], b[i]) if i < len(b) else "length", f"chain {[gc.subject_of(c) for c in order]} append {t + 1}, candle {i} of {len(a)} closed: before vs after {text}", "chain")], True, labels)
+    return Result([], len(snaps) >= 3 and (compared or bool(case.get("down_first"))), labels)
+
+
 def run_case(case) -> Result:
+    if "chain" in case:
+        return _run_chain(case)
     subject = gc.subject_of(case["cfg"])
     tf = case.get("tf")
     labels, viol = [], []
@@ -130,4 +196,6 @@ def shards(tier):
     for s in gc.SUBJECTS:
         cost = 3 if s in ("ADX", "TSI", "STOCH", "MACD", "HMA", "Supertrend") else 1
         out.append(Shard(s, (lambda s=s: cases(s, mx)), n, subject=s, cost=cost))
+    out += [Shard(f"chain-{i}", lambda: chain_cases(mx), n, subject="chain", cost=2) for i in range(2)]
+    out.append(Shard("enum-chain-orders", cases=_chain_enum, subject="chain", exhaustive=True, cost=2))
     return out
